@@ -1844,6 +1844,285 @@ fn small_items(thorough: bool) -> Vec<Small> {
     v
 }
 
+// =====================================================================================
+// L2: node level — a rejected packet leaves the session untouched
+// =====================================================================================
+mod l2 {
+    use std::cell::RefCell;
+
+    use proptest::prelude::*;
+    use serde::{Deserialize, Serialize};
+
+    use rs_matter::crypto::CanonAeadKeyRef;
+    use rs_matter::error::Error;
+    use rs_matter::respond::{ExchangeHandler, Responder};
+    use rs_matter::transport::exchange::Exchange;
+    use rs_matter::transport::network::NoNetwork;
+    use rs_matter::transport::packet::PacketHdr;
+    use rs_matter::transport::session::verif::SessionSnapshot;
+    use rs_matter::transport::session::NocCatIds;
+    use rs_matter::utils::storage::WriteBuf;
+
+    use vh::sim::net::{alien_addr, Net};
+    use vh::sim::node::{mk_crypto, new_matter, plant_half, sessions, SessKind};
+    use vh::sim::{Exec, Sched, Stop, MS};
+    use vh::util::pick;
+    use vh::Case;
+
+    #[derive(Debug, Clone, Serialize, Deserialize)]
+    pub enum Alter {
+        /// flip one bit anywhere in the datagram
+        Flip { byte: u16, bit: u8 },
+        Truncate { keep: u16 },
+        Extend { extra: Vec<u8> },
+        /// encrypted under another key
+        OtherKey,
+        /// encrypted under the key of the opposite direction
+        OppositeDirection,
+        /// nonce built with another source node id
+        OtherSourceNode,
+        /// session id of the other planted session in the header, body of this one
+        OtherSessionId,
+        /// exact replay of the accepted message
+        Replay,
+    }
+
+    #[derive(Debug, Clone, Serialize, Deserialize)]
+    pub struct L2Case {
+        pase: bool,
+        payload_len: u16,
+        reliable: bool,
+        /// alterations injected BEFORE the genuine message
+        before: Vec<Alter>,
+        /// alterations injected AFTER the genuine message was accepted
+        after: Vec<Alter>,
+        seed: u32,
+    }
+
+    pub fn l2_case() -> impl Strategy<Value = L2Case> {
+        let alter = || {
+            prop_oneof![
+                6 => (any::<u16>(), 0u8..8).prop_map(|(byte, bit)| Alter::Flip { byte, bit }),
+                1 => any::<u16>().prop_map(|keep| Alter::Truncate { keep }),
+                1 => prop::collection::vec(any::<u8>(), 1..5).prop_map(|extra| Alter::Extend { extra }),
+                1 => Just(Alter::OtherKey),
+                1 => Just(Alter::OppositeDirection),
+                1 => Just(Alter::OtherSourceNode),
+                1 => Just(Alter::OtherSessionId),
+            ]
+        };
+        (
+            any::<bool>(),
+            prop_oneof![3 => 0u16..40, 1 => 40u16..900],
+            any::<bool>(),
+            prop::collection::vec(alter(), 0..5),
+            prop::collection::vec(prop_oneof![4 => alter(), 1 => Just(Alter::Replay)], 0..5),
+            any::<u32>(),
+        )
+            .prop_map(|(pase, payload_len, reliable, before, after, seed)| L2Case {
+                pase,
+                payload_len,
+                reliable,
+                before,
+                after,
+                seed,
+            })
+    }
+
+    struct Sink<'a>(&'a RefCell<Vec<Vec<u8>>>);
+
+    impl ExchangeHandler for Sink<'_> {
+        async fn handle(&self, mut exchange: Exchange<'_>) -> Result<(), Error> {
+            loop {
+                let p = exchange.recv().await?.payload().to_vec();
+                self.0.borrow_mut().push(p);
+            }
+        }
+    }
+
+    fn encode(key: &[u8; 16], nonce_node: u64, sess_id: u16, ctr: u32, exch: u16, reliable: bool, body: &[u8]) -> Option<Vec<u8>> {
+        let mut hdr = PacketHdr::new();
+        hdr.plain.sess_id = sess_id;
+        hdr.plain.ctr = ctr;
+        hdr.proto.exch_id = exch;
+        hdr.proto.set_initiator();
+        if reliable {
+            hdr.proto.set_reliable();
+        } else {
+            hdr.proto.unset_reliable();
+        }
+        hdr.proto.proto_id = 0x00F7;
+        hdr.proto.proto_opcode = 1;
+        let mut buf = vec![0u8; 1400];
+        let reserve = PacketHdr::HDR_RESERVE;
+        let end = reserve + body.len();
+        buf[reserve..end].copy_from_slice(body);
+        let crypto = mk_crypto(1);
+        let mut wb = WriteBuf::new_with(&mut buf, reserve, end);
+        hdr.encode(&crypto, Some(CanonAeadKeyRef::new(key)), nonce_node, &mut wb).ok()?;
+        Some(wb.as_slice().to_vec())
+    }
+
+    /// What must not change when a packet is rejected.
+    fn essence(s: &SessionSnapshot) -> (u32, u32, u16, u32, [u8; 16], [u8; 16], Vec<Option<(u16, bool, u8, Option<u32>, Option<u32>)>>, bool) {
+        (
+            s.id,
+            s.rx_max_ctr,
+            s.rx_bitmap,
+            s.msg_ctr,
+            s.dec_key,
+            s.enc_key,
+            s.exchanges
+                .iter()
+                .map(|e| e.as_ref().map(|e| (e.exch_id, e.initiator, e.state, e.retrans, e.ack_pending)))
+                .collect(),
+            s.expired,
+        )
+    }
+
+    pub fn check_l2(case: &L2Case) -> Case {
+        vh::sim::reset_universe();
+        let net = Net::new(1);
+        let cd = mk_crypto(case.seed);
+        let device = new_matter(5540);
+        let kind = if case.pase { SessKind::Pase } else { SessKind::Case };
+        let (peer_node, dev_node) = if case.pase { (0u64, 0u64) } else { (0x1001, 0x2002) };
+        let k_in = [0x11u8; 16];
+        let k_out = [0x22u8; 16];
+        let k2_in = [0x33u8; 16];
+        let k2_out = [0x44u8; 16];
+        // two sessions of the same peer address: the attacked one and a neighbour
+        if plant_half(&device, &cd, kind, dev_node, peer_node, 0x0A01, 0x0B01, alien_addr(0), &k_in, &k_out, 1, NocCatIds::default()).is_err()
+            || plant_half(&device, &cd, kind, dev_node, peer_node, 0x0A02, 0x0B02, alien_addr(0), &k2_in, &k2_out, 1, NocCatIds::default()).is_err()
+        {
+            return Case::inconclusive("planting failed");
+        }
+        let received: RefCell<Vec<Vec<u8>>> = RefCell::new(Vec::new());
+        let body: Vec<u8> = (0..case.payload_len).map(|i| (i as u8).wrapping_mul(7).wrapping_add(3)).collect();
+        let ctr = 0x0050_0000u32;
+        let Some(genuine) = encode(&k_in, peer_node, 0x0A01, ctr, 0x77, case.reliable, &body) else {
+            return Case::inconclusive("encode failed");
+        };
+        let alter = |a: &Alter, n: usize| -> Option<Vec<u8>> {
+            // every forged packet uses a FRESH counter (so it is not rejected as a duplicate
+            // before authentication is even attempted), except the exact replay
+            let c = ctr + 10 + n as u32;
+            let fresh = encode(&k_in, peer_node, 0x0A01, c, 0x77, case.reliable, &body)?;
+            Some(match a {
+                Alter::Flip { byte, bit } => {
+                    let mut v = fresh;
+                    let i = pick(*byte, v.len());
+                    v[i] ^= 1 << (bit & 7);
+                    v
+                }
+                Alter::Truncate { keep } => {
+                    let mut v = fresh;
+                    let k = pick(*keep, v.len());
+                    v.truncate(k);
+                    v
+                }
+                Alter::Extend { extra } => {
+                    let mut v = fresh;
+                    v.extend_from_slice(extra);
+                    v
+                }
+                Alter::OtherKey => encode(&k2_in, peer_node, 0x0A01, c, 0x77, case.reliable, &body)?,
+                Alter::OppositeDirection => encode(&k_out, peer_node, 0x0A01, c, 0x77, case.reliable, &body)?,
+                Alter::OtherSourceNode => encode(&k_in, peer_node ^ 0x55, 0x0A01, c, 0x77, case.reliable, &body)?,
+                Alter::OtherSessionId => encode(&k_in, peer_node, 0x0A02, c, 0x77, case.reliable, &body)?,
+                Alter::Replay => genuine.clone(),
+            })
+        };
+
+        let mut verdict: Option<Case> = None;
+        let mut reached_auth = 0usize;
+        {
+            let responder = Responder::new("device", Sink(&received), &device, 0);
+            let mut ex = Exec::new(Sched::Fifo);
+            ex.add_time_source(&net);
+            ex.spawn("dev.run", async {
+                let _ = device.run(&cd, net.end(0), net.end(0), NoNetwork).await;
+            });
+            ex.spawn("dev.resp", async {
+                let _ = responder.run::<2>().await;
+            });
+            ex.run_for(10 * MS);
+
+            let mut n = 0usize;
+            let mut inject_all = |ex: &mut Exec<'_>, list: &[Alter], phase: &str, verdict: &mut Option<Case>| {
+                for a in list {
+                    n += 1;
+                    let Some(bytes) = alter(a, n) else { continue };
+                    if vh::sim::node::decode_plain(&bytes).map(|(sid, _, enc)| enc && (sid == 0x0A01 || sid == 0x0A02)).unwrap_or(false) {
+                        reached_auth += 1;
+                    }
+                    let before: Vec<_> = sessions(&device).iter().map(essence).collect();
+                    let got_before = received.borrow().len();
+                    net.inject(0, alien_addr(0), bytes.clone());
+                    if ex.run_for(20 * MS) == Stop::PollLimit {
+                        *verdict = Some(Case::inconclusive("poll watchdog"));
+                        return;
+                    }
+                    let mut after: Vec<_> = sessions(&device).iter().map(essence).collect();
+                    let mut before = before;
+                    if matches!(a, Alter::Replay) {
+                        // an authentic duplicate is acknowledged again, which takes a send counter:
+                        // everything else must stay as it is
+                        for e in before.iter_mut().chain(after.iter_mut()) {
+                            e.3 = 0;
+                        }
+                    }
+                    if received.borrow().len() != got_before {
+                        verdict.get_or_insert_with(|| {
+                            Case::fail(
+                                format!("node:forged-packet-delivered:{}", kind_name(a)),
+                                format!("{phase}: altered packet {a:?} was handed to an exchange"),
+                            )
+                        });
+                    }
+                    if before != after {
+                        verdict.get_or_insert_with(|| {
+                            Case::fail(
+                                format!("node:rejected-packet-changed-state:{}", kind_name(a)),
+                                format!("{phase}: altered packet {a:?} changed the session table\n before: {before:?}\n after:  {after:?}"),
+                            )
+                        });
+                    }
+                }
+            };
+            inject_all(&mut ex, &case.before, "before the genuine message", &mut verdict);
+            if verdict.is_none() {
+                // the genuine message must be accepted
+                net.inject(0, alien_addr(0), genuine.clone());
+                ex.run_for(20 * MS);
+                if received.borrow().len() != 1 || received.borrow()[0] != body {
+                    verdict = Some(Case::fail(
+                        "node:genuine-message-not-delivered",
+                        format!("after {} rejected forgeries the genuine message was not delivered intact (received {:?} message(s))", case.before.len(), received.borrow().len()),
+                    ));
+                }
+            }
+            if verdict.is_none() {
+                inject_all(&mut ex, &case.after, "after the genuine message", &mut verdict);
+            }
+        }
+        verdict.unwrap_or_else(|| Case::pass(reached_auth > 0).label(if case.pase { "pase" } else { "case" }))
+    }
+
+    fn kind_name(a: &Alter) -> &'static str {
+        match a {
+            Alter::Flip { .. } => "bit-flip",
+            Alter::Truncate { .. } => "truncate",
+            Alter::Extend { .. } => "extend",
+            Alter::OtherKey => "other-key",
+            Alter::OppositeDirection => "opposite-direction",
+            Alter::OtherSourceNode => "other-source-node",
+            Alter::OtherSessionId => "other-session-id",
+            Alter::Replay => "replay",
+        }
+    }
+}
+
 fn main() {
     let mut run = Run::new(
         "C03",
@@ -1874,7 +2153,10 @@ fn main() {
     let items = small_items(run.is_thorough());
     run.exhaustive("small-exhaustive", items, check_small);
 
-    // ---- L2 / L3: node level (simulator) — to be added here --------------------------------
+    // ---- L2: node level (simulator): a rejected packet leaves the session untouched ---------
+    run.assume("L2: forged packets carry fresh counters so that they reach the authentication step; a session's last-use stamp may change on lookup");
+    let n = run.cases(60_000, 2_000_000);
+    run.prop("node-reject-state-unchanged", n, l2::l2_case, l2::check_l2);
 
     run.finish();
 }
